@@ -48,6 +48,20 @@ func Transcribe(seq Sequence) Sequence {
 	return WithBytes(seq, p)
 }
 
+// lowerASCII returns a copy of p with the ASCII letters in lower case. Unlike
+// bytes.ToLower it never changes the length of p (which decodes UTF-8 and
+// replaces invalid bytes), so offsets found in the copy are offsets in p.
+func lowerASCII(p []byte) []byte {
+	q := make([]byte, len(p))
+	for i, c := range p {
+		if 'A' <= c && c <= 'Z' {
+			c += 'a' - 'A'
+		}
+		q[i] = c
+	}
+	return q
+}
+
 // Match for an oligomer within a sequence. The ambiguous nucleotides in the
 // query sequence will match any of the respective nucleotides.
 func Match(seq Sequence, query Sequence) []Segment {
@@ -56,7 +70,7 @@ func Match(seq Sequence, query Sequence) []Segment {
 	}
 
 	b := strings.Builder{}
-	for _, c := range bytes.ToLower(query.Bytes()) {
+	for _, c := range lowerASCII(query.Bytes()) {
 		switch c {
 		case 't', 'u':
 			b.WriteString("[tu]")
@@ -89,7 +103,7 @@ func Match(seq Sequence, query Sequence) []Segment {
 	}
 
 	s := b.String()
-	p := bytes.ToLower(seq.Bytes())
+	p := lowerASCII(seq.Bytes())
 
 	re := regexp.MustCompile(s)
 	pairs := re.FindAllIndex(p, -1)
